@@ -61,6 +61,7 @@ DEVS = [  # (configuration, invariant that must break, what the rendering is, in
     ("Dev_Federation_routerfirst.cfg", "VisibleReachable", "outside the statement; the code: Terminate removes the service from the router before it unregisters it", False),
     ("Dev_Federation_nolease.cfg", "VisibleReachable", "outside the statement; the code: the directory keeps the entries of a server it cannot reach any more", False),
     ("Dev_Federation_nolease_term.cfg", "TerminatedInvisible", "outside the statement; the code: a service terminated behind a lost connection stays listed for ever", False),
+    ("Dev_Federation_stalekept.cfg", "StaleOnlyDown", "outside the statement; the code: a connection lost between dial and insert stays in the session's pool, its closer is never called", False),
 ]
 OBS = [  # the configuration that describes the code, against the demands outside the statement
     ("Obs_Federation_visiblereachable.cfg", "VisibleReachable", "a listed service is not routed by a running server (UnregisterService in flight after router.Remove; ServiceReady acted upon, reply lost; server cut off or terminated)"),
@@ -68,6 +69,7 @@ OBS = [  # the configuration that describes the code, against the demands outsid
     ("Obs_Federation_noorphan.cfg", "NoOrphan", "an object activated by a NewService that failed afterwards is never terminated"),
     ("Obs_Federation_terminatedinvisible.cfg", "TerminatedInvisible", "a service whose Terminate returned is still listed (the error of UnregisterService is dropped)"),
     ("Obs_Federation_nostalepool.cfg", "NoStalePool", "a session keeps a dead pooled connection for ever (the server closed it between dial and insert: the closer never runs)"),
+    ("Obs_Federation_staleonlydown.cfg", "StaleOnlyDown", "... also to a server that keeps running (the connection was lost, not the server): every later Proxy of that session for a service behind that address fails"),
 ]
 
 
@@ -80,7 +82,7 @@ def depth_of(r):
 def witnesses(tests):
     """steps of the replayed behaviours at which the REAL servers showed what the demands outside the statement exclude"""
     w = {"listed_service_unreachable": 0, "name_blocked_by_ownerless_staged_entry": 0, "listed_after_terminate_returned": 0,
-         "dead_pooled_connection_used": 0, "ready_acted_upon_reply_lost": 0}
+         "dead_pooled_connection_used": 0, "dead_pooled_connection_used_while_the_server_runs": 0, "ready_acted_upon_reply_lost": 0}
     for t in tests:
         for i, s in enumerate(t):
             o, op = s["obs"], s["op"]
@@ -95,6 +97,8 @@ def witnesses(tests):
                 w["listed_after_terminate_returned"] += 1
             if op["k"] == "pdial" and o["out"]["w"] == "callerr":
                 w["dead_pooled_connection_used"] += 1
+                if all(o["up"]):
+                    w["dead_pooled_connection_used_while_the_server_runs"] += 1
             if prev and op["k"] == "cut" and op["m"] == "rep" and prev["pc"][op["s"] - 1] == "ena":
                 w["ready_acted_upon_reply_lost"] += 1
     return w
@@ -150,18 +154,19 @@ def corrupt(tests):
 def run(ctx, scope="C15"):
     thorough = ctx.tier == "thorough"
     rnd = random.Random(ctx.seed * 131 + 17)
-    pool = ThreadPoolExecutor(max_workers=7)
+    pool = ThreadPoolExecutor(max_workers=8)
     sel = lambda: {"SEL": str(rnd.randrange(10))}
     if thorough:
         gens = [("GenFederation_thorough.cfg", "T", 9000), ("GenFederation_clients.cfg", "T", 1500), ("GenFederation_seq_thorough.cfg", "S", 1500)]
     else:
         gens = [("GenFederation.cfg", "T", 800), ("GenFederation_clients.cfg", "T", 650), ("GenFederation_seq.cfg", "S", 350)]
     genruns = [(g, pool.submit(ctx.tlc, "GenFederation", g[0], workers=1, count=False, timeout=2400, env=sel())) for g in gens]
-    design = ideal = None
+    design = ideal = design2 = None
     devruns, obsruns = [], []
     if scope == "C15":
         design = pool.submit(ctx.design_check, "Federation", "MCFederation_thorough.cfg" if thorough else "MCFederation.cfg", workers=4, timeout=3000)
         ideal = pool.submit(ctx.design_check, "Federation", "MCFederation_ideal_thorough.cfg" if thorough else "MCFederation_ideal.cfg", workers=2, timeout=3000)
+        design2 = None if thorough else pool.submit(ctx.design_check, "Federation", "MCFederation_clients.cfg", workers=2, timeout=3000)
         devruns = [(d, pool.submit(ctx.tlc, "Federation", d[0], workers=1, count=False, expect_ok=False, timeout=900)) for d in DEVS]
         obsruns = [(d, pool.submit(ctx.tlc, "Federation", d[0], workers=1, count=False, expect_ok=False, timeout=900)) for d in OBS]
 
@@ -225,11 +230,13 @@ def run(ctx, scope="C15"):
     if design is not None:
         design.result()
         ideal.result()
+        if design2 is not None:
+            design2.result()
     pool.shutdown()
     ctx.extra["federation" if scope == "C15" else "federation_" + scope.lower()] = info
     ctx.assumptions += ["federation: all servers of a behaviour live in one process (the harness); what makes them 'processes' is that they "
                         "share nothing but connections: every connection to the directory passes a relay of the harness which delays, drops "
                         "or cuts; a service server's directory connection is identified by the order in which the harness builds the world",
-                        "federation: 2 service servers, 2 names, <= 3 NewService calls, <= 1 lost connection, 1 client session with <= 2 Proxy "
-                        "requests; Server.Terminate only while no NewService / Terminate of that server is in progress (ServerLife.tla has those); "
+                        "federation: 2 service servers, 2 names, <= 3 NewService calls, <= 1 lost connection to the directory, 1 client session with <= 2 "
+                        "Proxy requests and <= 1 connection lost under it; Server.Terminate only while no NewService / Terminate of that server is in progress (ServerLife.tla has those); "
                         "the client session is at rest (its list refreshed) before every command"]
